@@ -125,6 +125,16 @@ func c17A(c *core.Case) {
 		for i := 0; i < c.Rng.IntN(3); i++ {
 			conn.RunRollbackTx(pager.RollbackSpec{Mode: mode, Outcome: "commit", NewPageN: d.M.PageN + uint32(c.Rng.IntN(3)), Dirty: []uint32{2, 3}})
 		}
+		if mode == "persist" && c.Rng.IntN(2) == 0 {
+			// an earlier, committed transaction with several journal segments: a
+			// persistent journal keeps its later segments behind the zeroed header
+			sp := pager.RollbackSpec{Mode: mode, Outcome: "commit", NewPageN: d.M.PageN, SpillAfter: 2, MultiSpill: true}
+			for j := 0; j < 7 && d.M.PageN > 1; j++ {
+				sp.Dirty = append(sp.Dirty, 1+uint32(c.Rng.IntN(int(d.M.PageN))))
+			}
+			conn.RunRollbackTx(sp)
+			c.Count("A_persist_journal_with_stale_segments", 1)
+		}
 	} else {
 		c.Count("A_first_transaction", 1)
 	}
